@@ -317,6 +317,9 @@ func crashJob(raw json.RawMessage) (interface{}, error) {
 						}
 					}
 					if len(post) == 0 {
+						post = append(post, surviveWrites(w, pol)...)
+					}
+					if len(post) == 0 {
 						if dd := w.CompareDump(true); dd != "" {
 							post = append(post, "suffix|dump: "+dd)
 						}
@@ -441,6 +444,49 @@ func ruleOf(e string) string {
 		}
 	}
 	return e
+}
+
+// surviveWrites continues on the files that survived the crash (at most four, by handle order): an object whose
+// truncation or removal the crash interrupted may still hold blocks beyond its end.  Way 0 writes across the end
+// of the file into the middle of the next block, grows it and reads the grown part; way 1 writes far beyond the end (beyond any earlier length) and
+// reads the gap.  The reference model says what must be read: zeros where nothing was written.  On tiny disks the
+// writes may be refused or short for lack of space.
+func surviveWrites(w *World, way int) []string {
+	var fhs []string
+	for fh, id := range w.Model.ByFH {
+		if o := w.Model.Objs[id]; o != nil && o.Kind == reffs.REG {
+			fhs = append(fhs, fh)
+		}
+	}
+	sort.Strings(fhs)
+	if len(fhs) > 4 {
+		fhs = fhs[:4]
+	}
+	saved := w.Model.AllowImplFail
+	w.Model.AllowImplFail = true
+	defer func() { w.Model.AllowImplFail = saved }()
+	for _, fh := range fhs {
+		h := "raw:" + fh
+		sz := w.Model.Objs[w.Model.ByFH[fh]].Size
+		from := uint64(0)
+		if sz > 10 {
+			from = sz - 10
+		}
+		var ops []fsx.Op
+		if way == 0 {
+			ops = []fsx.Op{{K: "WRITE", H: h, Off: from, Cnt: 4096 + 500, Pat: 0x5b, Stable: 2}, {K: "SETATTR", H: h, Size: sz + 3*4096 + 100},
+				{K: "READ", H: h, Off: from, Cnt: 4 * 4096}, {K: "SETATTR", H: h, Size: sz}}
+		} else {
+			ops = []fsx.Op{{K: "WRITE", H: h, Off: sz + 1300*4096, Cnt: 1, Pat: 0x5c, Stable: 2}, {K: "READ", H: h, Off: from, Cnt: 3 * 4096},
+				{K: "READ", H: h, Off: sz + 1299*4096, Cnt: 8192}, {K: "SETATTR", H: h, Size: sz}}
+		}
+		for _, o := range ops {
+			if _, _, mis := w.Do(o); mis != nil {
+				return []string{"suffix|survivor|" + o.K + "|" + mis.Rule + ": " + fmt.Sprintf("%s on a file that survived the crash (size %d): %s", o, sz, mis.Msg)}
+			}
+		}
+	}
+	return nil
 }
 
 // reclaimAfterRecovery is the procedure of C05 after a crash in the middle of
